@@ -29,3 +29,12 @@ class rule_500(token_case):
     def __init__(self):
         super().__init__(lTokens)
         self.groups.append("case::name")
+
+    def _get_tokens_of_interest(self, oFile):
+        lToi = super()._get_tokens_of_interest(oFile)
+        return [oToi for oToi in lToi if not is_character_literal(oToi)]
+
+
+def is_character_literal(oToi):
+    # 'X' and 'x' are different enumeration literals, changing their case changes the type
+    return oToi.get_tokens()[0].get_value().startswith("'")
